@@ -136,7 +136,7 @@ func VerifC10_HandleUpdate(h *zz.H) {
 	l := t.GetLeaf(p)
 	done := make(chan bool, 2)
 	// D9 (known finding): Delete holds only the root's write lock and reads the leaf without the leaf's lock
-	h.Known("D9-leaf-update-vs-delete-race", true, "DATA RACE")
+	h.Known("D9-leaf-update-vs-delete-race", true, "internalDelete")
 	go func() { l.Update(int64(2)); done <- true }()
 	go func() { t.Delete(p); done <- true }()
 	<-done
